@@ -10,7 +10,7 @@ inductive HK where
   | tag    -- multiboot2::TagHeader            {typ u32, size u32}, payload_len asserts size ≥ 8
   | bi     -- multiboot2::BootInformationHeader {total_size u32, reserved u32}
   | hb     -- multiboot2_header::Multiboot2BasicHeader {magic, arch, length, checksum}
-  | ht     -- multiboot2_header::HeaderTagHeader {typ u16, flags u16, size u32}, unchecked subtraction
+  | ht     -- multiboot2_header::HeaderTagHeader {typ u16, flags u16, size u32}, payload_len asserts size ≥ 8
   | dummy  -- multiboot2_common::test_utils::DummyTestHeader {typ u32, size u32}, unchecked subtraction
 deriving Repr, DecidableEq, Inhabited
 
@@ -30,7 +30,7 @@ def payloadLen (p : Profile) (k : HK) (d : Nat) : Res Nat :=
   | .tag => if d ≥ 8 then .ok (d - 8) else .panic          -- assert!(size >= 8)
   | .bi => .ok (d - 8)                                      -- saturating_sub
   | .hb => .ok (d - 16)                                     -- saturating_sub
-  | .ht => usub p W64 d 8
+  | .ht => if d ≥ 8 then .ok (d - 8) else .panic          -- assert!(size >= 8)
   | .dummy => usub p W64 d 8
 
 /-- `Header::total_size`: default `size_of::<Self>() + payload_len()`; `bi`/`hb` return the declared word. -/
